@@ -19,8 +19,8 @@ open Canvas Canvas.C08 GenK
 
 /-- the arc helpers the Bézier theorems never look inside -/
 class ArcFns (K : Type) where
-  center : K → K → K → K → K → Bool → Bool → K → K → K × K × K × K
-  angleBetween : K → K → K → Bool
+  /-- `math.Mod`; the theorems that use it state what they assume of it -/
+  fmod : K → K → K
 
 variable {K : Type} [Field K] [LinearOrder K] [IsStrictOrderedRing K] [Env K] [ArcFns K]
 
@@ -35,8 +35,11 @@ instance opsK : Ops K where
   sincos := fun x => (Env.sin x, Env.cos x)
   atan2 := Env.atan2
   pi := Env.pi
-  center := ArcFns.center
-  angleBetween := ArcFns.angleBetween
+  fmod := ArcFns.fmod
+  acos := Env.acos
+  abs := fun x => |x|
+  eps := Env.epsilon
+  le := fun a b => decide (a ≤ b)
 
 @[simp] theorem ops_mn (a b : K) : Ops.mn a b = min a b := rfl
 @[simp] theorem ops_mx (a b : K) : Ops.mx a b = max a b := rfl
